@@ -180,6 +180,8 @@ def enum_units(tier, seed):
 
 def unit_cases(unit):
     yield unit
+    if unit.get("t") == "mn":
+        yield {"t": "expansions", "m": unit["m"]}
 
 
 def hyp_examples(tier):
@@ -253,6 +255,33 @@ def run_case(case) -> Outcome:
         out.labels = [f"enum:{k}" for k in stats] + [f"mnemonic:{m}"]
         out.sample = {"mnemonic": m, "lines_tried": ev, "stats": dict(stats),
                       "example": render_line(m, ("(", "s", "y"), "", "0x12", "upper")}
+        return out
+    if t == "expansions":
+        # the same source line assembled several times (macro applications, loop iterations) with operands of
+        # different width classes: each instance is encoded for ITS operand value
+        m = case["m"]
+        out = Outcome(evals=0, nontrivial=0, labels=["expansions"])
+        for shape in (("", None, None), ("", None, "x"), ("#", None, None)):
+            for order in ([0x10, 0x2100, 0x7E2000, 0x12], [0x7E2000, 0x10, 0x2100], [0x2100, 0x2100, 0x10]):
+                opnd = render_line(m, shape, "", "p_x", "lower")
+                src = "*=0x008000\n.macro m_w(p_x) {\n" + opnd + "\n}\n" + "".join(f"m_w(0x{v:x})\n" for v in order)
+                loop = "*=0x008000\n.for i_x := 0, 4 {\n" + render_line(m, shape, "", "i_x * 0x8000", "lower") + "\n}\n"
+                for label, text, values in (("macro", src, order), ("loop", loop, [0, 0x8000, 0x10000, 0x18000])):
+                    exps = [expected(m, shape, "", v) for v in values]
+                    res = driver.assemble_mem(text)
+                    out.evals += 1
+                    if any(e[0] != "op" for e in exps) or any((m, shape[0], shape[1], shape[2], e[2]) not in supported() for e in exps):
+                        continue  # some width has no cell: rejection is fine, acceptance is judged by the single-line enumeration
+                    want = b"".join(bytes([e[1]]) + (v & ((1 << (8 * e[2])) - 1)).to_bytes(e[2], "little") for e, v in zip(exps, values))
+                    out.nontrivial += 1
+                    sub = {"t": "expansions", "m": m}
+                    if not res.accepted:
+                        out.bad(f"expansions-rejected:{m}:{label}", sub, f"every instance is a supported cell but the program was rejected: {res['exc']} {res.failure_text[:160]}\n{text}")
+                    else:
+                        got = b"".join(d for _, d in res["blocks"])
+                        if got != want:
+                            out.bad(f"expansions-wrong-encoding:{label}", sub, f"instances of one source line with operands {[hex(v) for v in values]}: emitted {got.hex()} expected {want.hex()}\n{text}")
+        out.sample = {"mnemonic": m, "what": "one source line, several expansions with operands of different width classes"}
         return out
     if t == "one":
         out = Outcome(evals=1)
